@@ -1,10 +1,10 @@
 (* Run: one entry point for every executable model definition. *)
 From Coq Require Import String Ascii List Bool.
-Require Import PyStr Sexp R_C09 R_C12 R_C13 R_C14 R_C19 R_C08 R_C10 R_Parse R_C18 R_Graph.
+Require Import PyStr Sexp R_C09 R_C12 R_C13 R_C14 R_C19 R_C08 R_C10 R_Parse R_C18 R_Graph R_Write.
 Import ListNotations.
 Fixpoint first_some (l : list (str -> list sexp -> option sexp)) (cmd : str) (args : list sexp) : option sexp :=
   match l with [] => None | f :: r => match f cmd args with Some x => Some x | None => first_some r cmd args end end.
-Definition handlers : list (str -> list sexp -> option sexp) := [run_c09; run_c12; run_c13; run_c14; run_c19; run_c08; run_c10; run_parse; run_c18; run_graph].
+Definition handlers : list (str -> list sexp -> option sexp) := [run_c09; run_c12; run_c13; run_c14; run_c19; run_c08; run_c10; run_parse; run_c18; run_graph; run_write].
 Definition run (x : sexp) : sexp :=
   match x with
   | Lst (Atom cmd :: args) => match first_some handlers cmd args with Some y => y | None => bad_request end
